@@ -235,6 +235,17 @@ func (r *Run) verify(e *vc.Engine, pkgPaths []string, sel Selection, withLemmas 
 
 func (r *Run) record(e *vc.Engine, all []*vc.Obligation) {
 	sort.Slice(all, func(i, j int) bool { return all[i].ID < all[j].ID })
+	// vacuity guard: every function must have at least one feasible return under its contract
+	// (an individual infeasible return is dead code — e.g. a redundant length check — not vacuity)
+	coverOK := map[string]bool{}
+	coverAny := map[string]*vc.Obligation{}
+	defer func() {
+		for fn, ok := range coverOK {
+			if !ok {
+				r.violation(e, coverAny[fn], "vacuity: no return of this function is feasible under its contract (contradictory requires / assumed contracts / axioms)")
+			}
+		}
+	}()
 	for _, o := range all {
 		c := r.ByClass[o.Class]
 		c[0]++
@@ -242,10 +253,11 @@ func (r *Run) record(e *vc.Engine, all []*vc.Obligation) {
 			r.NCover++
 			if o.Held() {
 				c[1]++
-			} else {
-				// a refuted cover query means contradictory assumptions: a broken check, reported as a violation
-				r.violation(e, o, "vacuity: path to this return is infeasible under the contract (contradictory requires/assumed contracts)")
+				coverOK[o.Func] = true
+			} else if _, seen := coverOK[o.Func]; !seen {
+				coverOK[o.Func] = false
 			}
+			coverAny[o.Func] = o
 			r.ByClass[o.Class] = c
 			continue
 		}
